@@ -673,6 +673,15 @@ func (m *model) encStruct(d *tv.Desc, v reflect.Value, fl flags) ([]member, erro
 			if err != nil {
 				return nil, err
 			}
+			if !fl.allowDup {
+				for _, fm := range ms {
+					for _, dm := range out {
+						if fm.name == dm.name {
+							return nil, &encErr{fmt.Sprintf("the embedded fallback repeats the member %q that was written for a declared field", fm.name)}
+						}
+					}
+				}
+			}
 			out = append(out, ms...)
 		}
 	}
